@@ -105,8 +105,34 @@ def eval_case(case):
     raise ValueError(sub)
 
 
+def eval_long(case):
+    """l = 65; F = a list of n entries, T in {empty, first entry only, last entry only, first two, F with the middle entry changed, F}:
+    adjust_precomputed and adjust_nondelegable (parent = keygen of the empty list, so every slot is free in the parent) in both directions"""
+    W = c11.world(case["cfg"], wk.LONG_L, case["n"] % 2 == 1, case["seed"])
+    L = W.L
+    n = case["n"]
+    F = wk.long_list(n)
+    mid = [list(e) for e in F["e"]]
+    mid[n // 2][1] = "v2" if mid[n // 2][1] == "v1" else "v1"
+    Ts = [{"e": [], "omit": False}, {"e": F["e"][:1], "omit": False}, {"e": F["e"][-1:], "omit": False}, {"e": F["e"][:2], "omit": False},
+          {"e": mid, "omit": False}, {"e": F["e"][1:], "omit": False}, {"e": F["e"][:-1], "omit": False}]
+    msgs = []
+    parent, state = W.replay([["keygen", {"e": [], "omit": False}]])
+    for T in Ts:
+        for A, B in ((F, T), (T, F)):
+            pre = precompute(W, A)
+            L.call("embedded_pairing_wkdibe_adjust_precomputed", pre, W.params.buf, W.al(A), W.al(B))
+            if not g1eq(W, pre, precompute(W, B)):
+                msgs.append("adjust_precomputed from %d to %d entries != precompute(target)" % (len(A["e"]), len(B["e"])))
+            sub = dict(case, sub="nd", l=wk.LONG_L, sig=(n % 2 == 1), history=[["keygen", {"e": [], "omit": False}]], chain=[A, B])
+            m2 = eval_case(sub)
+            msgs += ["adjust_nondelegable from %d to %d entries: %s" % (len(A["e"]), len(B["e"]), m) for m in m2[:2]]
+    return msgs
+
+
 def shards(ctx):
     build.build("asm")
+    build.build("c32")
     out = []
     for k in range(8):
         out.append({"sub": "pre-pairs", "part": k, "parts": 8})
@@ -118,12 +144,26 @@ def shards(ctx):
     for st, hists in sorted(reach.items(), key=lambda kv: str(kv[0])):
         out.append({"sub": "nd", "state": [st[0], list(st[1])], "history": hists[0]})
     ctx.extra["abstract_states"] = len(reach)
+    # the portable 32-bit / ARM-like-ABI build runs the non-delegable adjustments of every 4th state as well
+    for k, (st, hists) in enumerate(sorted(reach.items(), key=lambda kv: str(kv[0]))):
+        if k % 4 == 1:
+            out.append({"sub": "nd", "state": [st[0], list(st[1])], "history": hists[0], "cfg": "c32"})
+    # list lengths as operands (l = 65): adjustments between long and short lists in both directions
+    for n in (wk.LONG_N if ctx.tier == "thorough" else [5, 9, 17, 33, 65]):
+        out.append({"sub": "long", "n": n})
     return out
 
 
 def run_shard(ctx, shard):
     sub = shard["sub"]
     seed = ctx.seed
+    if sub == "long":
+        case = {"sub": "long", "cfg": "asm", "seed": seed, "n": shard["n"]}
+        msgs = eval_long(case)
+        ctx.ok(True, "long-lists", n=28)
+        if msgs:
+            ctx.fail(case, "; ".join(msgs[:3]), sig="long-lists")
+        return
 
     def emit(case, nontrivial, outcome):
         msgs = eval_case(case)
@@ -165,7 +205,9 @@ def run_shard(ctx, shard):
             lists = lists + c11.special_lists(U["l"])
         perm = [L for L in lists if wk.permitted(state[1], L, vals)]
         for sig in (False, True):
-            base = {"cfg": "asm", "l": U["l"], "sig": sig, "seed": seed, "history": shard["history"]}
+            base = {"cfg": shard.get("cfg", "asm"), "l": U["l"], "sig": sig, "seed": seed, "history": shard["history"]}
+            if shard.get("cfg") and sig:
+                continue
             if sig and len(perm) > 16:
                 pairs = list(itertools.product(perm[::3], perm[::3]))
             else:
@@ -186,12 +228,14 @@ def run_shard(ctx, shard):
 
 
 def replay(ctx, case):
+    if case.get("sub") == "long":
+        return eval_long(case)
     return eval_case(case)
 
 
 def finish(merged, cov):
     for need in ("pre-pair:plain", "pre-pair:hidden-entry", "pre-pair:special-ids", "pre-chain:plain", "nd-pair:plain", "nd-pair:hidden-entry", "nd-pair:plain+omit-all",
-                 "nd-chain", "encrypt_precomputed"):
+                 "nd-chain", "encrypt_precomputed", "long-lists"):
         if not merged.outcomes.get(need):
             return "class %s never exercised" % need
     cov["states"] = merged.extra.get("abstract_states", 1)
